@@ -9,6 +9,7 @@ from ..core import (AnalysisIncomplete, call_name, const_value, kwarg,
                     walk_expr, walk_local)
 from ..patterns import (Cmp, assigns_to, calls_in, conjuncts, finfo,
                         returns_of, subscript_stores)
+from ..match import C, CS
 
 RA = 'enspara/ra/ra.py'
 CLS = 'RaggedArray'
@@ -50,8 +51,9 @@ def d1_bounds(ck, mod):
     g = None
     for n in guards:
         t = n.test
-        if isinstance(t, ast.Call) and call_name(t) == 'np.any' and isinstance(t.args[0], ast.Compare):
-            c = t.args[0]
+        if isinstance(t, ast.Call) and (call_name(t) == 'np.any' or (isinstance(t.func, ast.Attribute) and t.func.attr == 'any')) and \
+                isinstance((t.args[0] if t.args else t.func.value), ast.Compare):
+            c = t.args[0] if t.args else t.func.value
             cmpn = Cmp(c.left, type(c.ops[0]), c.comparators[0])
             less = cmpn.as_less()
             if less is not None and u(less[0]) == 'lengths[first_dimension]' and u(less[2]) == 'second_dimension' and not less[1]:
@@ -103,7 +105,7 @@ def d1_bounds(ck, mod):
     fh = mod.func('_handle_negative_indices')
     ck.analysed(mod, fh)
     for dim in ('first_dimension', 'second_dimension'):
-        rs = [x for x in walk_local(fh) if isinstance(x, ast.If) and u(x.test) in ('(%s < 0).sum() > 0' % dim, 'np.any(%s < 0)' % dim)
+        rs = [x for x in walk_local(fh) if isinstance(x, ast.If) and u(x.test) in CS('(%s < 0).sum() > 0' % dim, 'np.any(%s < 0)' % dim)
               and any(isinstance(y, ast.Raise) and 'IndexError' in u(y) for y in x.body)]
         ck.check(len(rs) == 1, rule + '.negative-recheck', mod, rs[0] if rs else fh, '_handle_negative_indices', u(rs[0].test) if rs else dim,
                  'an index still negative after adding the length raises IndexError',
@@ -279,7 +281,7 @@ def d4_index_space(ck, mod):
     cl = [(s, t) for s, t in subscript_stores(fn, 'stops')]
     ok = len(cl) == 1 and u(cl[0][0].value) == '%s[%s]' % (lengths, u(cl[0][1].slice))
     w = [s for s in walk_local(fn) if isinstance(s, ast.Assign) and u(s.targets[0]) == u(cl[0][1].slice)] if cl else []
-    ok = ok and len(w) == 1 and u(w[0].value) == 'np.where(stops > %s)' % lengths
+    ok = ok and len(w) == 1 and u(w[0].value) == C('np.where(stops > %s)' % lengths)
     ck.check(ok, rule + '.clip', mod, cl[0][0] if cl else fn, '_get_iis_from_slices', u(cl[0][0]) if cl else 'clip', 'stops beyond a row are clipped to that row\'s length',
              'stops must be clipped per row: stops[stops > lengths] = lengths[...]')
 
@@ -289,20 +291,25 @@ def d5_where(ck, mod):
     fn = mod.func('_convert_from_1d')
     ck.analysed(mod, fn)
     fd = [s for s in walk_local(fn) if isinstance(s, ast.Assign) and u(s.targets[0]) == 'first_dimension']
-    ok = len(fd) == 1 and u(fd[0].value) == '[np.where(starts <= ii)[0][-1] for ii in iis_flat]'
+    ok = len(fd) == 1 and u(fd[0].value) == C('[np.where(starts <= ii)[0][-1] for ii in iis_flat]')
     ck.check(ok, rule, mod, fd[0] if fd else fn, '_convert_from_1d', u(fd[0]) if fd else 'first_dimension',
              'row of a flat index = LAST row whose start is <= the index', 'row must be np.where(starts <= ii)[0][-1] (< loses the first element of each row)')
     sd = [s for s in walk_local(fn) if isinstance(s, ast.Assign) and u(s.targets[0]) == 'second_dimension']
     ok = len(sd) == 1 and u(sd[0].value) == '[iis_flat[num] - starts[first_dimension[num]] for num in range(len(iis_flat))]'
     ck.check(ok, rule, mod, sd[0] if sd else fn, '_convert_from_1d', u(sd[0]) if sd else 'second_dimension', 'column = flat index - start of its row', 'column must be iis_flat[k] - starts[row[k]]')
     st = [s for s in walk_local(fn) if isinstance(s, ast.Assign) and u(s.targets[0]) == 'starts']
-    ok = len(st) == 1 and u(st[0].value) == 'np.append([0], np.cumsum(lengths)[:-1])'
+    ok = len(st) == 1 and u(st[0].value) == C('np.append([0], np.cumsum(lengths)[:-1])')
     ck.check(ok, rule + '.starts', mod, st[0] if st else fn, '_convert_from_1d', u(st[0]) if st else 'starts', 'starts = exclusive prefix sums of lengths', 'starts must be np.append([0], np.cumsum(lengths)[:-1])')
     for q in ('_convert_from_2d', CLS + '.starts'):
         f = mod.func(q)
         txt = [u(x) for x in ast.walk(f) if isinstance(x, ast.Call) and call_name(x) == 'np.append']
-        want = 'np.append([0], np.cumsum(%s)[:-1])' % ('self.lengths' if q.endswith('.starts') else 'lengths')
-        ck.check(want in txt, rule + '.starts', mod, f, q, want, 'same definition of starts', '%s must compute starts as %s' % (q, want))
+        want = C('np.append([0], np.cumsum(%s)[:-1])' % ('self.lengths' if q.endswith('.starts') else 'lengths'))
+        ok = want in txt
+        if q.endswith('.starts'):
+            rr = returns_of(f)
+            ok = len(rr) == 1 and u(rr[0].value) == want and len([x for x in f.body if not (isinstance(x, ast.Expr) and isinstance(x.value, ast.Constant))]) == 1
+        ck.check(ok, rule + '.starts', mod, f, q, want, 'same definition of starts (recomputed from the current lengths on every access)',
+                 '%s must compute starts as %s from the CURRENT lengths on every access (a cached copy goes stale when append changes the lengths)' % (q, want))
     fw = mod.func('where')
     ok = any(u(x) == '_convert_from_1d(iis_flat, starts=mask.starts)' for x in ast.walk(fw) if isinstance(x, ast.Call)) and \
         any(u(x) == 'np.where(mask._data)' for x in ast.walk(fw) if isinstance(x, ast.Call))
@@ -320,8 +327,53 @@ def d5_where(ck, mod):
     ck.check(ok, 'C05.D6.observers', mod, first, CLS + '.__getitem__', u(first.test), 'integer index returns the row view', 'a[i] must return self._array[i]')
 
 
+def d7_constructor_and_lists(ck, mod):
+    """Rectangular fast path of the constructor and the row x column product
+    used for (rows, column-list) indices."""
+    rule = 'C05.D7.row-major'
+    fn = mod.func(CLS + '.__init__')
+    ck.analysed(mod, fn)
+    rs = [s for s in walk_local(fn) if isinstance(s, ast.Assign) and u(s.targets[0]) == 'self._array' and
+          isinstance(s.value, ast.Call) and isinstance(s.value.func, ast.Attribute) and s.value.func.attr == 'reshape']
+    for s in rs:
+        a = [u(x) for x in s.value.args]
+        if len(a) == 1 and isinstance(s.value.args[0], ast.Tuple):
+            a = [u(x) for x in s.value.args[0].elts]
+        ok = u(s.value.func.value) == 'self._data' and a in (['-1', 'lengths[0]'], ['len(lengths)', 'lengths[0]'], ['1', 'self.lengths[0]'],
+                                                               ['-1', 'self.lengths[0]'], ['len(self.lengths)', 'self.lengths[0]'])
+        ck.check(ok, rule + '.reshape', mod, s, CLS + '.__init__', u(s),
+                 'equal-length fast path: rows x row-length view of the flat data',
+                 'the rectangular row view must be self._data.reshape(<number of rows or -1>, <row length>): with the arguments '
+                 'swapped the view has row-length rows of n-rows elements, so a[i], iteration and len() disagree with the rows')
+    ck.floor(rule + '.reshape', len(rs), 2, 'reshape views in the constructor')
+    g = [n for n in walk_local(fn) if isinstance(n, ast.If) and u(n.test) in CS('np.all(lengths == lengths[0])')]
+    ck.check(len(g) == 1, rule + '.reshape', mod, g[0] if g else fn, CLS + '.__init__', u(g[0].test) if g else 'equal-length test',
+             'the fast path is taken only when all lengths are equal', 'the reshape fast path must be guarded by np.all(lengths == lengths[0])')
+    fl = mod.func('_get_iis_from_list')
+    ck.analysed(mod, fl)
+    a, b = params(fl)[:2]
+    pr = [c for c in calls_in(fl) if call_name(c) == 'itertools.product']
+    ok = len(pr) == 1 and [u(x) for x in pr[0].args] == [a, b]
+    st = [s for s in walk_local(fl) if isinstance(s, ast.Assign) and isinstance(s.targets[0], ast.Name) and 'itertools.product' in u(s.value)]
+    ok = ok and len(st) == 1 and u(st[0].value) == 'np.array(list(itertools.product(%s, %s))).T' % (a, b)
+    ck.check(ok, rule + '.product', mod, pr[0] if pr else fl, '_get_iis_from_list', u(st[0]) if st else 'row x column pairs',
+             '(row, column) pairs enumerated row-major: all columns of the first row, then the next row',
+             'the index pairs must be itertools.product(rows, columns) (row-major) transposed into (rows, cols): the flat result is '
+             'chunked row by row by new_lengths, so a column-major enumeration (e.g. np.meshgrid default) scatters values into '
+             'transposed slots')
+    nl = [s for s in walk_local(fl) if isinstance(s, ast.Assign) and u(s.targets[0]) == 'new_lengths']
+    ok = len(nl) == 1 and u(nl[0].value) == 'list(itertools.repeat(len(%s), len(%s)))' % (b, a)
+    ck.check(ok, rule + '.product', mod, nl[0] if nl else fl, '_get_iis_from_list', u(nl[0]) if nl else 'new_lengths',
+             'every selected row contributes len(columns) elements', 'new_lengths must be len(columns) repeated len(rows) times')
+
+
 def check(ck):
     mod = ck.repo.mod(RA)
+    d7_constructor_and_lists(ck, mod)
+    from ..patterns import check_no_arg_mutation
+    check_no_arg_mutation(ck, 'C05.D8.reads-are-pure', [(RA, CLS + '.__getitem__'), (RA, '_convert_from_2d'), (RA, '_convert_from_1d'),
+                                                        (RA, 'where'), (RA, '_get_iis_from_list'), (RA, '_slice_to_list'),
+                                                        (RA, '_get_iis_from_slices')], exempt_self_methods=False)
     d1_bounds(ck, mod)
     d2_slices(ck, mod)
     d3_dispatch(ck, mod)
